@@ -11,7 +11,7 @@ use crate::gram::{self, Built};
 use crate::lexstub::{Lx, StubLexer, LT};
 use crate::reflr::{self, expected_set, parse_tree, ref_search, strip, Ctx, InTok, Rp, SearchCaps, SearchOutcome, Stacks, Tree, TreeParse};
 use crate::rng::{fnv, fnv_add, Rng};
-use crate::seams::{sim_process, ClockPolicy, SimOutcome, SimStats};
+use crate::seams::{sim_process, sim_process_with_stack, ClockPolicy, SimOutcome, SimStats, SUBJECT_STACK};
 
 pub const BUDGET_NS: u64 = 500_000_000;
 pub const ACTION_CALL_CAP: usize = 300_000;
@@ -158,7 +158,7 @@ pub struct ActRun {
 }
 
 fn real_parse_map(b: &Built, lexer: &StubLexer, costs: &[u8], hash_seed: u64, clock: &ClockPolicy) -> (SimOutcome<MapRun>, SimStats) {
-    sim_process(hash_seed, Some(clock), || {
+    sim_process_with_stack(hash_seed, Some(clock), SUBJECT_STACK, || {
         let calls = Cell::new(0usize);
         let cf = |t: TIdx<u16>| costs[usize::from(t)];
         let lx: &StubLexer = lexer;
@@ -181,7 +181,7 @@ fn real_parse_map(b: &Built, lexer: &StubLexer, costs: &[u8], hash_seed: u64, cl
 }
 
 fn real_parse_actions(b: &Built, lexer: &StubLexer, costs: &[u8], hash_seed: u64, clock: &ClockPolicy, rk: RecoveryKind) -> (SimOutcome<ActRun>, SimStats) {
-    sim_process(hash_seed, Some(clock), || {
+    sim_process_with_stack(hash_seed, Some(clock), SUBJECT_STACK, || {
         let recs: RefCell<Vec<Rec>> = RefCell::new(vec![]);
         let cf = |t: TIdx<u16>| costs[usize::from(t)];
         let lx: &StubLexer = lexer;
@@ -469,6 +469,21 @@ pub fn execute(sc: &RScenario, opts: &ExecOpts) -> RunReport {
         j.rep.exercised[2] = n > 0;
     }
 
+    // %avoid_insert as the grammar *text* declares it (not as the grammar object reports it)
+    let avoid_set: BTreeSet<u16> = sc
+        .grammar
+        .lines()
+        .filter_map(|l| l.trim().strip_prefix("%avoid_insert"))
+        .flat_map(|rest| rest.split_whitespace())
+        .filter_map(|n| grm.token_idx(n.trim_matches('\'').trim_matches('"')))
+        .map(|t| t.0)
+        .collect();
+    for t in grm.iter_tidxs() {
+        if grm.avoid_insert(t) != avoid_set.contains(&t.0) {
+            j.viol("C06", "C06-g-avoid-insert-set", format!("token {} ({:?}): avoid_insert() is {} but the grammar {} it in %avoid_insert", t.0, grm.token_name(t), grm.avoid_insert(t), if avoid_set.contains(&t.0) { "lists" } else { "does not list" }));
+        }
+    }
+
     // ---- walk the error list ----------------------------------------------------------------
     let lex_index = |l: &Lx| -> Option<usize> {
         if l.faulty && l.len == 0 && l.tok_id == ctx.eof {
@@ -610,6 +625,23 @@ pub fn execute(sc: &RScenario, opts: &ExecOpts) -> RunReport {
         if costs_real.iter().any(|c| *c != costs_real[0]) {
             j.viol("C06", "C06-a-unequal-cost", format!("error {ei}: reported sequences have costs {:?}", costs_real));
         }
+        // the same sum over the lexemes the sequences themselves name
+        let costs_named: Vec<u32> = e
+            .repairs
+            .iter()
+            .map(|s| {
+                s.iter()
+                    .map(|r| match r {
+                        RRp::Ins(t) => prep.costs[*t as usize] as u32,
+                        RRp::Del(l) => prep.costs.get(l.tok_id as usize).copied().unwrap_or(0) as u32,
+                        RRp::Sh(_) => 0,
+                    })
+                    .sum()
+            })
+            .collect();
+        if costs_named.iter().any(|c| *c != costs_named[0]) && !costs_real.iter().any(|c| *c != costs_real[0]) {
+            j.viol("C06", "C06-a-unequal-cost", format!("error {ei}: by the lexemes they name, the reported sequences cost {:?}", costs_named));
+        }
         for (si, s) in seqs.iter().enumerate() {
             if s.last() == Some(&Rp::Sh) {
                 j.viol("C06", "C06-e-trailing-shift", format!("error {ei} sequence {si} [{}] ends in a shift", fmt_seq(s)));
@@ -625,7 +657,7 @@ pub fn execute(sc: &RScenario, opts: &ExecOpts) -> RunReport {
         if set_real.len() != seqs.len() {
             j.viol("C06", "C06-f-duplicate", format!("error {ei}: {} sequences reported, {} distinct", seqs.len(), set_real.len()));
         }
-        let avoid = |s: &Vec<Rp>| s.iter().any(|r| matches!(r, Rp::Ins(t) if grm.avoid_insert(TIdx(*t))));
+        let avoid = |s: &Vec<Rp>| s.iter().any(|r| matches!(r, Rp::Ins(t) if avoid_set.contains(t)));
         let mut seen_avoid = false;
         let mut last_len = 0usize;
         let mut any_avoid = false;
@@ -1255,8 +1287,67 @@ pub struct GenParams {
 }
 
 /// Base (fault-free) scenario for stream `r`. Pure given the grammar front end.
+/// Inputs whose every repair costs more than a `u16` can hold: a finite language (so that the
+/// search space stays small), a junk tail of 258-300 lexemes at cost 255 that can only be deleted,
+/// and cheap alternatives of different cost in front of it.
+fn gen_overflow(r: &mut Rng) -> RScenario {
+    let grammar = "%start R0\n%%\nR0: R1 't0';\nR1: 't1' | 't2';\nR2: 't3';\n".to_string();
+    let n = 258 + r.below(43) as usize;
+    let mut tokens = vec![];
+    if r.chance(50) {
+        tokens.push("t0".to_string());
+    }
+    tokens.extend((0..n).map(|_| "t3".to_string()));
+    let mut costs = BTreeMap::new();
+    costs.insert("t3".to_string(), 255u8);
+    costs.insert("t2".to_string(), 2 + r.below(3) as u8);
+    if r.chance(50) {
+        costs.insert("t0".to_string(), 1 + r.below(200) as u8);
+    }
+    RScenario {
+        origin: "cost-overflow".into(),
+        grammar,
+        gaps: vec![0; tokens.len()],
+        tokens,
+        costs,
+        hash_seed: r.next(),
+        clock: ClockPolicy { tick_ns: 100_000, jumps: vec![] },
+        policy_class: "tick".into(),
+        base_reads: 0,
+        zero_width: vec![],
+    }
+}
+
+/// One valid lexeme (or none) followed by thousands of lexemes that can only be deleted, with a
+/// clock fast enough for the search to get through all of them inside its budget: whatever the
+/// recoverer does per repair *recursively* meets the stack here.
+fn gen_long_junk(r: &mut Rng) -> RScenario {
+    let grammar = "%start R0\n%%\nR0: 't0' | 't0' 't2';\nR1: 't1';\n".to_string();
+    let n = *r.pick(&[3_000usize, 12_000, 45_000]);
+    let mut tokens = vec!["t0".to_string()];
+    tokens.extend((0..n).map(|_| "t1".to_string()));
+    RScenario {
+        origin: "long-junk".into(),
+        grammar,
+        gaps: vec![],
+        tokens,
+        costs: BTreeMap::new(),
+        hash_seed: r.next(),
+        clock: ClockPolicy { tick_ns: (BUDGET_NS / (4 * n as u64)).max(1), jumps: vec![] },
+        policy_class: "tick".into(),
+        base_reads: 0,
+        zero_width: vec![],
+    }
+}
+
 pub fn gen_base(r: &mut Rng, gp: &GenParams) -> Option<RScenario> {
     let which = r.below(100);
+    if which == 99 && r.chance(50) {
+        return Some(gen_overflow(r));
+    }
+    if which == 98 && r.chance(3) {
+        return Some(gen_long_junk(r));
+    }
     let (origin, grammar) = if which < 12 {
         let (n, g) = *r.pick(gram::CORPUS);
         (format!("corpus:{n}"), g.to_string())
